@@ -58,7 +58,10 @@ def run(ctx):
                 try:
                     comp = compile_acl_text(text, cat.vendor)
                     before = acl_digest(comp)
-                    d, p = api._diff_and_patch(cat.device, cases.tree(o), cases.tree(n), comp, None, False, rb=cat.compiled[k - 1])
+                    # every third run is additionally given a filter ACL (`--filter-acl`), here one that lets everything through: a filter
+                    # can only narrow the patch further, the generators' ACL keeps governing what may be touched and deleted
+                    flt = compile_acl_text("~  %global\n", cat.vendor, allow_ignore=True) if len(recs) % 3 == 0 else None
+                    d, p = api._diff_and_patch(cat.device, cases.tree(o), cases.tree(n), comp, flt, False, rb=cat.compiled[k - 1])
                     rec["cmds"] = cases.jpaths(cat.formatter.cmd_paths(p))
                     # the compiled ACL is a cached object shared by every later use of that text: a run reads it (and may leave its scratch
                     # `match` field behind), it does not change what the ACL says
